@@ -77,7 +77,7 @@ pub fn check_direction_a(spec: &FileSpec, file: &[u8], model: &[Val], prop: &str
 		out.fail(format!("{prop}:A:codec-name"), format!("file says {:?}, writer was configured with {codec:?}", parsed.codec.name()));
 		return;
 	}
-	if parsed.sync != spec.sync {
+	if !spec.via_write_all && parsed.sync != spec.sync {
 		out.fail(format!("{prop}:A:header-sync"), "header sync marker is not the configured one");
 		return;
 	}
@@ -166,7 +166,11 @@ impl Prop for C06 {
 		};
 		if run % 2 == 0 {
 			return Scn {
-				dir: Dir::A(container::gen_filespec(rng, &profile)),
+				dir: Dir::A({
+					let mut spec = container::gen_filespec(rng, &profile);
+					container::maybe_via_write_all(rng, &mut spec);
+					spec
+				}),
 				rk_seed: rng.next_u64(),
 				only_kind: None,
 				apache: true,
@@ -261,7 +265,11 @@ impl Prop for C06 {
 				out.sig(sig);
 				out.count("direction_a_files", 1);
 				let mut d = Fnv::new();
-				d.bytes(&file);
+				if spec.via_write_all {
+					d.u64(file.len() as u64);
+				} else {
+					d.bytes(&file);
+				}
 				out.digest = d.get();
 			}
 			Dir::B(b) => {
